@@ -24,6 +24,11 @@ import re
 
 from extract import emit, parse
 
+try:
+    from consteval import ModuleEnv, NotConst
+except ImportError:  # pragma: no cover
+    ModuleEnv, NotConst = None, Exception
+
 PARSER = "spsdk/sbfile/sb2/sly_bd_parser.py"
 LEXER = "spsdk/sbfile/sb2/sly_bd_lexer.py"
 
@@ -271,6 +276,412 @@ def _terminates(stmts):
     if isinstance(last, ast.If):
         return _terminates(last.body) and bool(last.orelse) and _terminates(last.orelse)
     return False
+
+
+
+# ------------------------------------------------------------------------------------------------ partial evaluator
+# A rule action is read SEMANTICALLY: its body is executed by a small partial evaluator in which everything that selects the
+# behaviour (the operator text, the size letter, module-level tables, imported `operator.*` functions, locals derived from them) is
+# concrete and only the operand values are symbolic.  The result for one concrete operator is a residual expression over the
+# operands (`token.expr0 + token.expr1`, `token[0] & 4294967295`).  An if-chain, an elif-chain, early returns, a `match` statement or a
+# dispatch through a dict of functions therefore all give the same generated action table.
+
+_OPFN = {"add": ast.Add, "sub": ast.Sub, "mul": ast.Mult, "floordiv": ast.FloorDiv, "mod": ast.Mod, "lshift": ast.LShift,
+         "rshift": ast.RShift, "and_": ast.BitAnd, "or_": ast.BitOr, "xor": ast.BitXor,
+         "lt": ast.Lt, "le": ast.LtE, "gt": ast.Gt, "ge": ast.GtE, "eq": ast.Eq, "ne": ast.NotEq,
+         "neg": ast.USub, "pos": ast.UAdd, "not_": ast.Not}
+
+
+class OpFn:
+    """a function of the `operator` module (or a builtin) known by meaning"""
+    def __init__(self, name):
+        self.name, self.op = name, _OPFN[name]
+
+
+class Lam:
+    def __init__(self, node, pe_env):
+        self.node, self.env = node, pe_env
+
+
+class Res:
+    """residual (symbolic) integer expression"""
+    def __init__(self, node):
+        self.node = node
+
+
+class Unk:
+    """a value the evaluator knows nothing about (only allowed where it is stored, never where it is used)"""
+    def __init__(self, why):
+        self.why = why
+
+
+class _Return(Exception):
+    def __init__(self, value):
+        self.value = value
+
+
+class PE:
+    def __init__(self, module_tree, cls_node, bindings):
+        """bindings: unparsed source expression -> concrete python value or Res"""
+        self.tree, self.cls_node = module_tree, cls_node
+        try:
+            self.menv = ModuleEnv(module_tree) if ModuleEnv is not None else None
+        except Exception:  # noqa: BLE001
+            self.menv = None
+        self.bind = dict(bindings)
+        self.locals = {}
+        self.mod_nodes, self.imports, self.opmods = {}, {}, set()
+        for st in module_tree.body:
+            if isinstance(st, ast.ImportFrom) and st.module == "operator":
+                for a in st.names:
+                    if a.name in _OPFN:
+                        self.imports[a.asname or a.name] = OpFn(a.name)
+            elif isinstance(st, ast.Import):
+                for a in st.names:
+                    if a.name == "operator":
+                        self.opmods.add(a.asname or a.name)
+            elif isinstance(st, ast.Assign) and len(st.targets) == 1 and isinstance(st.targets[0], ast.Name):
+                self.mod_nodes[st.targets[0].id] = st.value
+            elif isinstance(st, ast.AnnAssign) and isinstance(st.target, ast.Name) and st.value is not None:
+                self.mod_nodes[st.target.id] = st.value
+        self.cls_nodes = {}
+        for st in (cls_node.body if cls_node is not None else []):
+            if isinstance(st, ast.Assign) and len(st.targets) == 1 and isinstance(st.targets[0], ast.Name):
+                self.cls_nodes[st.targets[0].id] = st.value
+            elif isinstance(st, ast.AnnAssign) and isinstance(st.target, ast.Name) and st.value is not None:
+                self.cls_nodes[st.target.id] = st.value
+        self._mod_cache = {}
+
+    # ---------------- helpers
+    @staticmethod
+    def to_ast(v):
+        if isinstance(v, Res):
+            return v.node
+        if isinstance(v, bool):
+            return ast.Constant(value=v)
+        if isinstance(v, int):
+            return ast.Constant(value=v)
+        raise Untr(f"value {v!r} inside an integer expression")
+
+    def module_value(self, name):
+        if name in self._mod_cache:
+            return self._mod_cache[name]
+        node = self.mod_nodes.get(name)
+        if node is None:
+            raise Untr(f"unknown name {name}")
+        saved = self.locals
+        self.locals = {}
+        try:
+            v = self.eval(node)
+        finally:
+            self.locals = saved
+        self._mod_cache[name] = v
+        return v
+
+    def apply(self, fn, args):
+        if isinstance(fn, OpFn):
+            op = fn.op
+            if issubclass(op, ast.operator) and len(args) == 2:
+                return self.binop(op(), args[0], args[1])
+            if issubclass(op, ast.cmpop) and len(args) == 2:
+                return self.compare(args[0], [op()], [args[1]])
+            if issubclass(op, ast.unaryop) and len(args) == 1:
+                return self.unary(op(), args[0])
+            raise Untr(f"arity of operator.{fn.name}")
+        if isinstance(fn, Lam):
+            a = fn.node.args
+            if a.vararg or a.kwarg or a.kwonlyargs or a.defaults or len(a.args) != len(args):
+                raise Untr("lambda signature")
+            saved = self.locals
+            self.locals = dict(zip([x.arg for x in a.args], args))
+            try:
+                return self.eval(fn.node.body)
+            finally:
+                self.locals = saved
+        raise Untr(f"call of {fn!r}")
+
+    def binop(self, op, a, b):
+        if isinstance(a, Unk) or isinstance(b, Unk):
+            raise Untr("operation on an unreadable value")
+        if not isinstance(a, Res) and not isinstance(b, Res):
+            if isinstance(a, (int, str)) and isinstance(b, (int, str)):
+                try:
+                    import operator as _o
+                    f = {ast.Add: _o.add, ast.Sub: _o.sub, ast.Mult: _o.mul, ast.FloorDiv: _o.floordiv, ast.Mod: _o.mod, ast.LShift: _o.lshift,
+                         ast.RShift: _o.rshift, ast.BitAnd: _o.and_, ast.BitOr: _o.or_, ast.BitXor: _o.xor}.get(type(op))
+                    if f is None or (isinstance(op, (ast.LShift, ast.Pow)) and isinstance(b, int) and b > 4096):
+                        raise Untr("operator")
+                    return f(a, b)
+                except Untr:
+                    raise
+                except Exception as exc:  # noqa: BLE001
+                    raise Untr(f"constant operation fails: {exc}") from exc
+            raise Untr("operation on non-integers")
+        return Res(ast.BinOp(left=self.to_ast(a), op=op, right=self.to_ast(b)))
+
+    def unary(self, op, a):
+        if isinstance(a, Unk):
+            raise Untr("operation on an unreadable value")
+        if not isinstance(a, Res):
+            if isinstance(op, ast.Not):
+                return not a
+            if isinstance(op, ast.USub) and isinstance(a, int):
+                return -a
+            if isinstance(op, ast.UAdd) and isinstance(a, int):
+                return a
+            raise Untr("unary operator on a constant")
+        return Res(ast.UnaryOp(op=op, operand=a.node))
+
+    def compare(self, left, ops, rights):
+        vals = [left] + list(rights)
+        if any(isinstance(v, Unk) for v in vals):
+            raise Untr("comparison of an unreadable value")
+        if not any(isinstance(v, Res) for v in vals):
+            cur = left
+            for o, r in zip(ops, rights):
+                ok = {ast.Eq: lambda x, y: x == y, ast.NotEq: lambda x, y: x != y, ast.Lt: lambda x, y: x < y, ast.LtE: lambda x, y: x <= y,
+                      ast.Gt: lambda x, y: x > y, ast.GtE: lambda x, y: x >= y, ast.Is: lambda x, y: x is y, ast.IsNot: lambda x, y: x is not y,
+                      ast.In: lambda x, y: x in y, ast.NotIn: lambda x, y: x not in y}.get(type(o))
+                if ok is None:
+                    raise Untr("comparison operator")
+                try:
+                    if not ok(cur, r):
+                        return False
+                except TypeError as exc:
+                    raise Untr(str(exc)) from exc
+                cur = r
+            return True
+        # identity / membership tests against a symbolic integer: an int is never None and never a str
+        if len(ops) == 1 and isinstance(ops[0], (ast.Is, ast.IsNot)) and (left is None or rights[0] is None):
+            return isinstance(ops[0], ast.IsNot)
+        if len(ops) == 1 and isinstance(ops[0], (ast.Eq, ast.NotEq)) and (isinstance(left, str) or isinstance(rights[0], str)):
+            return isinstance(ops[0], ast.NotEq)
+        if len(ops) != 1:
+            raise Untr("chained symbolic comparison")
+        return Res(ast.Compare(left=self.to_ast(left), ops=[ops[0]], comparators=[self.to_ast(rights[0])]))
+
+    # ---------------- expressions
+    def eval(self, e):
+        key = ast.unparse(e)
+        if key in self.bind:
+            return self.bind[key]
+        if isinstance(e, ast.Constant):
+            return e.value
+        if isinstance(e, ast.Name):
+            if e.id in self.locals:
+                return self.locals[e.id]
+            if e.id in self.imports:
+                return self.imports[e.id]
+            if e.id in ("True", "False", "None"):
+                return {"True": True, "False": False, "None": None}[e.id]
+            return self.module_value(e.id)
+        if isinstance(e, ast.Attribute):
+            if isinstance(e.value, ast.Name) and e.value.id in self.opmods and e.attr in _OPFN:
+                return OpFn(e.attr)
+            if isinstance(e.value, ast.Name) and e.value.id in ("self", "cls") and e.attr in self.cls_nodes:
+                saved = self.locals
+                self.locals = {}
+                try:
+                    return self.eval(self.cls_nodes[e.attr])
+                finally:
+                    self.locals = saved
+            raise Untr(f"attribute {key}")
+        if isinstance(e, ast.Dict):
+            d = {}
+            for k, v in zip(e.keys, e.values):
+                if k is None:
+                    raise Untr("dict unpacking")
+                kk = self.eval(k)
+                if isinstance(kk, (Res, Unk, dict, list)):
+                    raise Untr("dict key")
+                try:
+                    d[kk] = self.eval(v)
+                except Untr as exc:
+                    d[kk] = Unk(str(exc))
+            return d
+        if isinstance(e, (ast.Tuple, ast.List)):
+            vals = [self.eval(x) for x in e.elts]
+            return tuple(vals) if isinstance(e, ast.Tuple) else vals
+        if isinstance(e, ast.Set):
+            return frozenset(self.eval(x) for x in e.elts)
+        if isinstance(e, ast.Lambda):
+            return Lam(e, None)
+        if isinstance(e, ast.BinOp):
+            return self.binop(e.op, self.eval(e.left), self.eval(e.right))
+        if isinstance(e, ast.UnaryOp):
+            return self.unary(e.op, self.eval(e.operand))
+        if isinstance(e, ast.Compare):
+            return self.compare(self.eval(e.left), e.ops, [self.eval(c) for c in e.comparators])
+        if isinstance(e, ast.BoolOp):
+            vals = [self.eval(v) for v in e.values]
+            if not any(isinstance(v, Res) for v in vals):
+                r = vals[0]
+                for v in vals[1:]:
+                    r = (r and v) if isinstance(e.op, ast.And) else (r or v)
+                return r
+            return Res(ast.BoolOp(op=e.op, values=[self.to_ast(v) for v in vals]))
+        if isinstance(e, ast.IfExp):
+            t = self.eval(e.test)
+            if isinstance(t, (Res, Unk)):
+                raise Untr("symbolic condition")
+            return self.eval(e.body) if t else self.eval(e.orelse)
+        if isinstance(e, ast.Subscript):
+            base = self.eval(e.value)
+            idx = self.eval(e.slice)
+            if isinstance(base, Res) or isinstance(idx, Res):
+                raise Untr(f"subscript {key}")
+            try:
+                return base[idx]
+            except Exception as exc:  # noqa: BLE001
+                raise Untr(f"{key}: {type(exc).__name__}") from exc
+        if isinstance(e, ast.Call):
+            if e.keywords and not (isinstance(e.func, ast.Name) and e.func.id == "dict" and not e.args):
+                return self._const_fallback(e)
+            args = [self.eval(a) for a in e.args]
+            if isinstance(e.func, ast.Attribute) and e.func.attr == "get":
+                base = self.eval(e.func.value)
+                if isinstance(base, dict) and 1 <= len(args) <= 2 and not isinstance(args[0], Res):
+                    try:
+                        return base.get(args[0], args[1] if len(args) == 2 else None)
+                    except TypeError as exc:
+                        raise Untr(str(exc)) from exc
+                raise Untr(f"call {key}")
+            if isinstance(e.func, ast.Name) and e.func.id == "dict" and "dict" not in self.locals and not e.args:
+                d = {}
+                for k in e.keywords:
+                    if k.arg is None:
+                        raise Untr("dict(**…)")
+                    try:
+                        d[k.arg] = self.eval(k.value)
+                    except Untr as exc:
+                        d[k.arg] = Unk(str(exc))
+                return d
+            if isinstance(e.func, ast.Name) and e.func.id in ("int", "bool") and e.func.id not in self.locals and len(args) == 1:
+                if not isinstance(args[0], Res):
+                    return int(args[0]) if e.func.id == "int" else bool(args[0])
+                if e.func.id == "int":
+                    return args[0]
+                raise Untr("bool() of a symbolic value")
+            try:
+                fn = self.eval(e.func)
+            except Untr:
+                return self._const_fallback(e)
+            return self.apply(fn, args)
+        return self._const_fallback(e)
+
+    def _const_fallback(self, e):
+        """anything else: a constant expression in the sense of consteval (concrete locals visible), or unreadable"""
+        if self.menv is None:
+            raise Untr(f"expression {type(e).__name__}: {ast.unparse(e)}")
+        loc = {k: v for k, v in self.locals.items() if isinstance(v, (int, str, bytes, tuple, bool)) or v is None}
+        try:
+            return self.menv.eval(e, cls=self.cls_node.name if self.cls_node is not None else None, local=loc)
+        except NotConst as exc:
+            raise Untr(f"expression {type(e).__name__}: {ast.unparse(e)[:60]} ({exc})") from exc
+        except Exception as exc:  # noqa: BLE001
+            raise Untr(f"expression {ast.unparse(e)[:60]}: {type(exc).__name__}") from exc
+
+    # ---------------- statements
+    def run(self, stmts):
+        """-> value returned by the body (python None when it falls off the end)"""
+        try:
+            self.block(stmts)
+        except _Return as r:
+            return r.value
+        return None
+
+    def block(self, stmts):
+        for s in stmts:
+            if isinstance(s, ast.Return):
+                raise _Return(None if s.value is None else self.eval(s.value))
+            if isinstance(s, ast.Expr):
+                if isinstance(s.value, ast.Constant):
+                    continue
+                c = s.value
+                if isinstance(c, ast.Call) and isinstance(c.func, ast.Attribute) and c.func.attr == "update" and len(c.args) == 1 and not c.keywords:
+                    base = self.eval(c.func.value)
+                    if isinstance(base, dict):
+                        try:
+                            arg = self.eval(c.args[0])
+                        except Untr as exc:
+                            arg = Unk(str(exc))
+                        if isinstance(arg, dict):
+                            base.update(arg)
+                        elif isinstance(arg, Unk):
+                            base.setdefault("\u0000open", []).append(arg)   # unknown further entries
+                        else:
+                            raise Untr("update() argument")
+                        continue
+                raise Untr(f"statement {ast.unparse(s)[:50]}")
+            if isinstance(s, ast.Pass):
+                continue
+            if isinstance(s, (ast.Assign, ast.AnnAssign)):
+                tgt = s.targets[0] if isinstance(s, ast.Assign) and len(s.targets) == 1 else getattr(s, "target", None)
+                if s.value is None:
+                    continue
+                if isinstance(tgt, ast.Subscript):
+                    base, idx = self.eval(tgt.value), self.eval(tgt.slice)
+                    if not isinstance(base, dict) or isinstance(idx, (Res, Unk, dict, list)):
+                        raise Untr("subscript assignment")
+                    try:
+                        base[idx] = self.eval(s.value)
+                    except Untr as exc:
+                        base[idx] = Unk(str(exc))
+                    continue
+                if not isinstance(tgt, ast.Name):
+                    raise Untr("assignment target")
+                self.locals[tgt.id] = self.eval(s.value)
+                continue
+            if isinstance(s, ast.AugAssign) and isinstance(s.target, ast.Name):
+                self.locals[s.target.id] = self.binop(s.op, self.eval(s.target), self.eval(s.value))
+                continue
+            if isinstance(s, ast.If):
+                t = self.eval(s.test)
+                if isinstance(t, (Res, Unk)):
+                    raise Untr("symbolic condition")
+                self.block(s.body if t else s.orelse)
+                continue
+            if hasattr(ast, "Match") and isinstance(s, ast.Match):
+                subj = self.eval(s.subject)
+                if isinstance(subj, Res):
+                    raise Untr("symbolic match subject")
+                for case in s.cases:
+                    if case.guard is not None:
+                        raise Untr("match guard")
+                    if self._pattern(case.pattern, subj):
+                        self.block(case.body)
+                        break
+                continue
+            if isinstance(s, ast.Raise):
+                raise Untr("raise")
+            raise Untr(f"statement {type(s).__name__}")
+
+    def _pattern(self, pat, subj):
+        if isinstance(pat, ast.MatchValue):
+            return self.eval(pat.value) == subj
+        if isinstance(pat, ast.MatchSingleton):
+            return pat.value is subj
+        if isinstance(pat, ast.MatchOr):
+            return any(self._pattern(x, subj) for x in pat.patterns)
+        if isinstance(pat, ast.MatchAs) and pat.pattern is None:
+            if pat.name:
+                self.locals[pat.name] = subj
+            return True
+        raise Untr("match pattern")
+
+
+def residual_to_lean(value, names):
+    """value returned by PE.run -> Lean term of type `PyRes Int` (a non-integer result is `.error .other`)"""
+    if isinstance(value, Res):
+        t, ty, partial = RuleTr(names).expr(value.node)
+        if ty != "Int":
+            return ".error .other"
+        return t if partial else f".ok {t}"
+    if isinstance(value, bool):
+        return f".ok ({int(value)} : Int)"
+    if isinstance(value, int):
+        return f".ok ({value} : Int)"
+    return ".error .other"
 
 
 def gen_rule(out, meta, lean_name, params, names, getfn, comment):
